@@ -184,13 +184,14 @@ func trendInds() []Ind {
 			PriceDeg: []int{1}, VolDeg: []int{0}, Recursive: true,
 		},
 		{
-			Name: "Ema", Inputs: []string{X}, Params: []Param{per("period", 20)}, Outs: []string{"ema"},
+			Name: "Ema", Inputs: []string{X}, Params: []Param{per("period", 20)}, FParams: []float64{2}, Outs: []string{"ema"},
 			Build: func(c Config) (func([]C) []C, int) {
 				a := trend.NewEmaWithPeriod[float64](c.P[0])
+				a.Smoothing = c.F[0]
 				return func(in []C) []C { return o1(a.Compute(in[0])) }, a.IdlePeriod()
 			},
 			Doc: "EMA with multiplier Smoothing/(Period+1); 'Initial EMA value is the SMA' (code comment; the type comment is silent on the seed - not claimed).",
-			Ref: func(c Config, in In) []ref.S { return []ref.S{ref.Ema(in[X], c.P[0])} },
+			Ref: func(c Config, in In) []ref.S { return []ref.S{ref.EmaK(in[X], c.P[0], c.F[0])} },
 			PriceDeg: []int{1}, VolDeg: []int{0}, Recursive: true,
 		},
 		{
